@@ -2,7 +2,11 @@ package main
 
 import (
 	"bytes"
+	crand "crypto/rand"
 	"encoding/binary"
+	"errors"
+	"io"
+	"strings"
 
 	"layeh.com/radius"
 )
@@ -96,9 +100,63 @@ func evalC03(op string, args []string) string {
 			}
 		}
 		return "ok " + itoa(int(first.Code)) + " " + hx(first.Secret) + " " + showAttributes(first.Attributes) + " " + fresh
+	case "newstream":
+		// New must draw every packet's identifier+authenticator from crypto/rand.Reader, never twice:
+		// the Reader is replaced by a recorded deterministic stream (optionally failing at one Read);
+		// each packet's 17 octets are located in the stream.
+		n, failAt := atoi(args[0]), atoi(args[1])
+		if n < 1 || n > 400 {
+			return "BAD-CASE"
+		}
+		st := &scriptedReader{g: NewGen(uint64(n*1000 + failAt + 7)), failAt: failAt}
+		old := crand.Reader
+		crand.Reader = st
+		defer func() { crand.Reader = old }()
+		var toks []string
+		for i := 0; i < n; i++ {
+			tok := func() (tok string) {
+				defer func() {
+					if r := recover(); r != nil {
+						tok = "P"
+					}
+				}()
+				p := radius.New(radius.CodeAccessRequest, []byte("s"))
+				w := append([]byte{p.Identifier}, p.Authenticator[:]...)
+				at := bytes.Index(st.rec, w)
+				if at < 0 {
+					return "X"
+				}
+				return itoa(at)
+			}()
+			toks = append(toks, tok)
+		}
+		return strings.Join(toks, ",") + " reads=" + itoa(st.reads)
 	}
 	return "UNKNOWN-OP"
 }
+
+// scriptedReader stands in for crypto/rand.Reader: a deterministic, never-repeating byte stream that is
+// recorded, and that fails (once) at its failAt-th Read call (failAt <= 0: never).
+type scriptedReader struct {
+	g      *Gen
+	rec    []byte
+	reads  int
+	failAt int
+}
+
+func (r *scriptedReader) Read(p []byte) (int, error) {
+	r.reads++
+	if r.reads == r.failAt {
+		return 0, errors.New("entropy source failed")
+	}
+	for i := range p {
+		p[i] = byte(r.g.U64())
+	}
+	r.rec = append(r.rec, p...)
+	return len(p), nil
+}
+
+var _ io.Reader = (*scriptedReader)(nil)
 
 var allCodes = []int{1, 2, 3, 4, 5, 11, 12, 13, 40, 41, 42, 43, 44, 45, 255, 0, -1, -2, 256, 257, 300, 6, 10, 39, 46}
 
@@ -213,6 +271,40 @@ func genC03(g *Gen, tier string, emit func(op string, args ...string)) {
 			emit("authreq", hx(rw), hx(sec))
 		case 9:
 			emit("new", itoa(g.code()), hx(g.secret()))
+		}
+	}
+	// New against a scripted entropy stream, with and without a failing Read
+	for _, nf := range [][2]int{{40, 0}, {200, 0}, {150, 1}, {150, 2}, {150, 3}, {200, 65}, {200, 66}, {300, 129}, {10, 5}} {
+		emit("newstream", itoa(nf[0]), itoa(nf[1]))
+	}
+	// long secrets and datagrams near the size limit (the hash must cover all of both)
+	for _, rl := range []int{20, 300, 4000, 4090, 4096} {
+		for _, sl := range []int{1, 64, 127, 128, 129, 160, 253, 1000} {
+			sec := g.RandBytes(sl)
+			req := &radius.Packet{Code: 1, Identifier: byte(g.Intn(256)), Secret: sec}
+			copy(req.Authenticator[:], g.RandBytes(16))
+			rw, _ := req.Encode()
+			resp := req.Response(2)
+			resp.Attributes = toAttributes(sizedAVPs(rl - 20))
+			w, err := resp.Encode()
+			if err != nil || rw == nil {
+				continue
+			}
+			emit("authresp", hx(w), hx(rw), hx(sec))
+			// signed with a prefix of the secret only / with no secret at all: must be rejected
+			for _, cut := range []int{0, sl / 2, sl - 1} {
+				forged := append([]byte{}, w...)
+				copy(forged[4:20], md5sum(w[:4], rw[4:20], w[20:], sec[:cut]))
+				emit("authresp", hx(forged), hx(rw), hx(sec))
+			}
+			last := append([]byte{}, sec...)
+			last[len(last)-1] ^= 1
+			emit("authresp", hx(w), hx(rw), hx(last))
+			acct := &radius.Packet{Code: 4, Identifier: 1, Secret: sec, Attributes: toAttributes(sizedAVPs(rl - 20))}
+			if aw, err := acct.Encode(); err == nil {
+				emit("authreq", hx(aw), hx(sec))
+				emit("authreq", hx(aw), hx(last))
+			}
 		}
 	}
 	if tier == "thorough" {
